@@ -26,6 +26,7 @@ type C05Reg struct {
 
 type C05Scenario struct {
 	core.Base
+	ShareOpts bool `json:"share_opts,omitempty"` // option values created once and reused by all subscriptions (see World.ShareOptions)
 	Type         int      `json:"type"`
 	Regs         []C05Reg `json:"regs"`
 	Pubs         []int    `json:"pubs"` // event ids, published one after another
@@ -106,6 +107,7 @@ func genC05(rt *rapid.T) core.Scenario {
 	sc.ViaAny = rapid.IntRange(0, 3).Draw(rt, "viaAny") == 3
 	sc.PHViaSetter = sc.PanicHandler && rapid.IntRange(0, 2).Draw(rt, "phViaSetter") == 2
 	sc.PHRetries = sc.PanicHandler && rapid.IntRange(0, 3).Draw(rt, "phRetries") == 3
+	sc.ShareOpts = rapid.IntRange(0, 2).Draw(rt, "shareOpts") == 2
 	sc.Tape = core.DrawTape(rt, 300)
 	return sc
 }
@@ -156,6 +158,7 @@ func (sc *C05Scenario) Execute(t *testing.T) *core.Outcome {
 			opts = append(opts, eventbus.WithObservability(nopObs{}))
 		}
 		w = NewWorld(opts...)
+		w.ShareOptions = sc.ShareOpts
 		w.OnInvoke = func(ti, fn, uid int, ctx context.Context, id int) {
 			ri := regOfFn[fn]
 			r := sc.Regs[ri]
